@@ -48,6 +48,8 @@ func (b *Built) build(e *Expr, h *Hooks) parsley.Parser {
 		p = terminal.Rune(rune(e.C))
 	case OpEmpty:
 		p = parser.Empty()
+	case OpEnd:
+		p = parser.End()
 	case OpNT:
 		p = &b.NTs[e.NT]
 	default:
